@@ -43,12 +43,15 @@ type gCfg struct {
 	// relayExt: a rewrite rule for relay candidates: 0 none; 1 one address appended (one allocation, two
 	// candidates); 2 two addresses replacing the relayed one
 	relayExt int
+	// stunWriteBlocks: sending to the STUN server blocks in the socket (full send queue towards that destination)
+	// for as long as the socket lives: only closing the socket, or a write deadline, releases the sender
+	stunWriteBlocks bool
 }
 
 func (g gCfg) String() string {
 	return fmt.Sprintf("host=%v srflx=%v mapped=%v relay=%v udpMux=%v muxSrflx=%v tcpMux=%v relayTCP=%v ips=%d filter=%v stunTO=%v urls2=%v",
 		g.host, g.srflxStun, g.srflxMapped, g.relay, g.udpMux, g.udpMuxSrflx, g.tcpMux, g.relayTCP, g.nIPs, g.ifaceFilter, g.stunTimeout, g.twoStunURLs) + map[bool]string{true: " sched", false: ""}[g.sched] + map[bool]string{true: " netrev", false: ""}[g.netRev] + map[bool]string{true: " relayCloseErr", false: ""}[g.relayCloseErr] +
-		fmt.Sprintf(" mappedExt=%d relayExt=%d", g.mappedExt, g.relayExt) + map[bool]string{true: " relayTLS", false: ""}[g.relayTLS]
+		fmt.Sprintf(" mappedExt=%d relayExt=%d", g.mappedExt, g.relayExt) + map[bool]string{true: " relayTLS", false: ""}[g.relayTLS] + map[bool]string{true: " stunWriteBlocks", false: ""}[g.stunWriteBlocks]
 }
 
 func drawGCfg(t *tape.Tape) gCfg {
@@ -79,6 +82,7 @@ func drawGCfg(t *tape.Tape) gCfg {
 	if g.relay {
 		g.relayExt = t.Pick([]int{3, 1, 1}, "relayext")
 	}
+	g.stunWriteBlocks = g.srflxStun && !g.udpMuxSrflx && t.Bias(1, 5, "stunwriteblocks")
 	return g
 }
 
@@ -116,6 +120,10 @@ func newGRig(c *core.Ctx, t *tape.Tape, cfg gCfg, extra ...ice.AgentOption) (*gR
 	}
 	g.H = g.W.SimpleHost("A", ips...)
 	srv := g.W.SimpleHost("S", "203.0.113.5", "203.0.113.6")
+	if cfg.stunWriteBlocks {
+		g.W.BlockWritesTo = map[netip.AddrPort]bool{netip.MustParseAddrPort("203.0.113.5:3478"): true, netip.MustParseAddrPort("203.0.113.6:3478"): true}
+		c.Fault("write-to-stun-server-blocks")
+	}
 	g.stun = rig.NewStunServer(srv, "203.0.113.5:3478")
 	g.stun2 = rig.NewStunServer(srv, "203.0.113.6:3478")
 	relayHost := g.W.SimpleHost("R", "203.0.113.9")
